@@ -34,6 +34,8 @@ type CaseResult struct {
 	Sample   any            `json:"sample,omitempty"`
 	Witness  any            `json:"witness,omitempty"` // written to the replay file on violation
 	Note     string         `json:"note,omitempty"`
+	// Early marks a provisional result journalled before the case ended (kept only if the process dies later).
+	Early bool `json:"early,omitempty"`
 }
 
 // Prop describes one property check.
@@ -70,6 +72,8 @@ type Ctx struct {
 	Tier    string
 	Seed    int
 	Scratch string // per-child scratch directory
+	// Emit journals a provisional result for the running case (used when a late panic may kill the process).
+	Emit func(r CaseResult)
 }
 
 var registry = map[string]*Prop{}
@@ -110,6 +114,22 @@ func childMain() int {
 	for i := from; i < to; i++ {
 		fmt.Fprintf(jf, "START %d\n", i)
 		jf.Sync()
+		i := i
+		c.Emit = func(r CaseResult) {
+			r.Index = i
+			r.Early = true
+			if r.Verdict == "" {
+				if len(r.Viols) > 0 {
+					r.Verdict = "violated"
+				} else {
+					r.Verdict = "held"
+				}
+			}
+			if b, err := json.Marshal(r); err == nil {
+				rf.Write(append(b, '\n'))
+				rf.Sync()
+			}
+		}
 		r := p.Run(c, i)
 		r.Index = i
 		if r.Verdict == "" {
@@ -195,12 +215,18 @@ func runChild(p *Prop, tier string, seed int, from, to int, scratch string, tag 
 		errf.Close()
 		// collect results
 		lastDone := cur - 1
+		early := map[int]CaseResult{}
 		if f, err := os.Open(prefix + ".results"); err == nil {
 			sc := bufio.NewScanner(f)
 			sc.Buffer(make([]byte, 1<<24), 1<<24)
 			for sc.Scan() {
 				var r CaseResult
 				if err := json.Unmarshal(sc.Bytes(), &r); err == nil {
+					if r.Early {
+						early[r.Index] = r
+						continue
+					}
+					delete(early, r.Index)
 					bo.results = append(bo.results, r)
 					if r.Index > lastDone {
 						lastDone = r.Index
@@ -218,7 +244,13 @@ func runChild(p *Prop, tier string, seed int, from, to int, scratch string, tag 
 		if timedOut {
 			reason = "child watchdog fired (killed with SIGQUIT)"
 		}
-		bo.died = append(bo.died, diedCase{Index: lastDone + 1, Stderr: tail(string(se), 6000), Reason: reason})
+		if er, ok := early[lastDone+1]; ok && len(er.Viols) > 0 {
+			// the case had journalled a verdict before the process died: keep the verdict, note the death
+			er.Note = strings.TrimSpace(er.Note + " [the process died after this verdict was journalled: " + reason + "]")
+			bo.results = append(bo.results, er)
+		} else {
+			bo.died = append(bo.died, diedCase{Index: lastDone + 1, Stderr: tail(string(se), 6000), Reason: reason})
+		}
 		cur = lastDone + 2
 		if attempt > 50 {
 			bo.broken = append(bo.broken, "too many child deaths in one batch")
